@@ -91,7 +91,7 @@ fn gen_ev(seed: u64, n: usize, len: usize, out: &str) {
                 8 => {
                     if !my_rooms.is_empty() {
                         let k = 1 + g.below(4);
-                        let mode = if g.chance(1, 2) { "acked" } else { "early" };
+                        let mode = if g.chance(2, 3) { "acked" } else { "early" };
                         let mut items = vec![];
                         for _ in 0..k {
                             let r = *g.pick(&my_rooms);
